@@ -1132,20 +1132,23 @@ func c19r8(p *Program, r *Report) {
 	if fi == nil {
 		return
 	}
-	info := fi.Pkg.TypesInfo
 	n := 0
-	for _, c := range callsIn(fi.Decl.Body) {
-		if calleeName(info, c) != "time.Unix" || len(c.Args) != 2 {
-			continue
+	top := fi
+	for _, fi := range p.unitsOf(top) {
+		info := fi.Pkg.TypesInfo
+		for _, c := range callsIn(fi.Decl.Body) {
+			if calleeName(info, c) != "time.Unix" || len(c.Args) != 2 {
+				continue
+			}
+			n++
+			sec := foldStr(info, p.expandLocalsAny(fi, c.Args[0], 0))
+			nsec := foldStr(info, p.expandLocalsAny(fi, c.Args[1], 0))
+			hasDiv := func(s string) bool { return strings.Contains(s, "/1e7") || strings.Contains(s, "/10000000") }
+			hasRem := func(s string) bool { return strings.Contains(s, "%1e7") || strings.Contains(s, "%10000000") }
+			okSplit := hasDiv(sec) && hasRem(nsec) && (strings.Contains(exprStr(p.expandLocalsAny(fi, c.Args[0], 0)), "timeBase") || strings.Contains(sec, "12219292800"))
+			r.Check(okSplit, c, "(UUID).Time builds the time from seconds and a sub-second remainder", "time.Unix(t/1e7 + timeBase, (t%1e7)*100)",
+				"the time is built as time.Unix("+sec+", "+nsec+"): without the split into seconds (ticks / 10^7) and remainder (ticks mod 10^7) the nanosecond value overflows int64 for instants before 1678 or after 2262, so such time-UUIDs return a wrong time")
 		}
-		n++
-		sec := foldStr(info, p.expandLocalsAny(fi, c.Args[0], 0))
-		nsec := foldStr(info, p.expandLocalsAny(fi, c.Args[1], 0))
-		hasDiv := func(s string) bool { return strings.Contains(s, "/1e7") || strings.Contains(s, "/10000000") }
-		hasRem := func(s string) bool { return strings.Contains(s, "%1e7") || strings.Contains(s, "%10000000") }
-		okSplit := hasDiv(sec) && hasRem(nsec) && strings.Contains(exprStr(p.expandLocalsAny(fi, c.Args[0], 0)), "timeBase")
-		r.Check(okSplit, c, "(UUID).Time builds the time from seconds and a sub-second remainder", "time.Unix(t/1e7 + timeBase, (t%1e7)*100)",
-			"the time is built as time.Unix("+sec+", "+nsec+"): without the split into seconds (ticks / 10^7) and remainder (ticks mod 10^7) the nanosecond value overflows int64 for instants before 1678 or after 2262, so such time-UUIDs return a wrong time")
 	}
 	if n == 0 {
 		r.Unresolved("(UUID).Time does not call time.Unix")
